@@ -329,3 +329,68 @@ func H_C01_step_real_q() { hStepReal(1, 2, []int{1, 31}, 33) }
 // all / none / alternate keys staying, so that a chain of up to 3 buckets (two
 // earlier buckets in the slot writer) is rebuilt; then a full scan.
 func H_C11_step_chain() { hStepRealT(1, 3, []int{0, 1, 2}, 6, "C11.chain") }
+
+// zeroBucketFile: an index file of any size whose every bucket reads as empty;
+// writes and truncations are accepted and forgotten.
+type zeroBucketFile struct {
+	fs.File
+	writes int
+}
+
+func (f *zeroBucketFile) Slice(start, end int64) ([]byte, error) {
+	return make([]byte, bucketSize), nil
+}
+func (f *zeroBucketFile) WriteAt(p []byte, off int64) (int, error) { f.writes++; return len(p), nil }
+func (f *zeroBucketFile) Truncate(size int64) error                { return nil }
+
+// H_C01_addr: the address arithmetic of linear hashing for EVERY level and split
+// pointer (symbolic level <= 30, symbolic split pointer < 2^level, symbolic hash):
+// bucketIndex stays below numBuckets; the real split() advances (level, split
+// pointer, numBuckets) so that numBuckets = 2^level + split still holds; and a
+// hash that did not address the split bucket keeps its bucket, while one that did
+// either stays or moves to exactly the newly added bucket. The index files are
+// stubs whose buckets read as empty (the step harnesses cover the data movement).
+func H_C01_addr() {
+	level := vU8("level")
+	split := vU32("split")
+	h := vU32("hash")
+	vAssume(level <= 30)
+	vAssume(split < uint32(1)<<level)
+	nb := (uint32(1) << level) + split
+	mainStub := &zeroBucketFile{}
+	idx := &index{
+		opts:           &Options{},
+		main:           &file{File: mainStub, size: int64(headerSize) + int64(bucketSize)*int64(nb)},
+		overflow:       &file{File: &zeroBucketFile{}, size: int64(headerSize)},
+		level:          level,
+		numBuckets:     nb,
+		splitBucketIdx: split,
+	}
+	b0 := idx.bucketIndex(h)
+	vAssert(b0 < nb, "C01.addr.bucket-index-below-numBuckets")
+	// a key is found where it was inserted only if bucketIndex is a function of (hash, level, split)
+	vAssert(idx.bucketIndex(h) == b0, "C01.addr.deterministic")
+	err := idx.split()
+	vAssert(err == nil, "C01.addr.split.err")
+	if err != nil {
+		return
+	}
+	vAssert(idx.numBuckets == nb+1, "C01.addr.split-adds-one-bucket")
+	vAssert(idx.numBuckets == (uint32(1)<<idx.level)+idx.splitBucketIdx, "C01.addr.numBuckets=2^level+split")
+	vAssert(idx.splitBucketIdx < uint32(1)<<idx.level, "C01.addr.split<2^level")
+	vAssert(idx.main.size == int64(headerSize)+int64(bucketSize)*int64(nb+1), "C01.addr.main-file-grew-by-one-bucket")
+	b1 := idx.bucketIndex(h)
+	vAssert(b1 < idx.numBuckets, "C01.addr.bucket-index-below-numBuckets-after-split")
+	if b0 != split {
+		vAssert(b1 == b0, "C01.addr.keys-of-other-buckets-do-not-move")
+	} else {
+		vAssert(b1 == b0 || b1 == nb, "C01.addr.keys-of-the-split-bucket-stay-or-move-to-the-new-bucket")
+		if b1 == nb {
+			vCover("C01.addr.moved")
+		}
+	}
+	if idx.level > level {
+		vCover("C01.addr.level-advanced")
+	}
+	vCover("C01.addr.done")
+}
